@@ -693,6 +693,12 @@ func main() {
 					rep.Violate(hx.Violation{Kind: "impl-violation", Signature: sig,
 						What:  fmt.Sprintf("program %d (%s) on %s with listeners=%s: observations differ from the reference evaluation of the program", p.ID, p.Note, engine, lc.name),
 						Input: map[string]any{"program": p, "engine": engine, "listeners": lc.name}, Expected: want.guest(), Actual: got.guest()})
+					if got.MSize != want.MSize || got.APISz != want.APISz {
+						// C14's part of it: memory.grow / memory.size / api.Memory.Size of each instance's OWN memory
+						rep.Violate(hx.Violation{Kind: "impl-violation", Signature: "C14:memory-size-of-the-wrong-instance:" + engine,
+							What:  fmt.Sprintf("program %d (%s) on %s with listeners=%s: the sizes of the instances' memories (guest memory.size %v, host Size %v) differ from the reference (%v): a memory.grow executed in one module changed or reported another module's memory", p.ID, p.Note, engine, lc.name, got.MSize, got.APISz, want.MSize),
+							Input: map[string]any{"program": p, "engine": engine, "listeners": lc.name}, Expected: want.guest(), Actual: got.guest()})
+					}
 				}
 			}
 			if lc.pick != nil && !tails {
